@@ -30,10 +30,53 @@ def dilation_model(S):
     return binary_dilation
 
 
+def zoom_linear_model(S):
+    """scipy.ndimage.zoom(a, (1, z), order=1) is a linear map of each row: its weight matrix is read off the REAL zoom applied to the
+    unit vectors (on every run) and applied to the symbolic samples; the weights must be exact multiples of 1/64 (true for the
+    power-of-two sub-pixel precisions of the claim), otherwise the model refuses"""
+    from scipy.ndimage import zoom as real_zoom
+    from fractions import Fraction
+
+    def zoom(a, factors, order=1, **kw):
+        if not isinstance(a, S.SymArray):
+            return real_zoom(a, factors, order=order, **kw)
+        if a.is_concrete():
+            return S.SymArray(real_zoom(a.to_numpy(), factors, order=order, **kw), a.kind)
+        if order != 1 or len(a.shape) != 2 or factors[0] != 1:
+            raise S.Unsupported('zoom%r order %r on symbolic data' % (factors, order))
+        H, W = a.shape
+        Wm = real_zoom(np.eye(W, dtype=np.float64), (1, factors[1]), order=1, **kw)      # row k: response to the unit vector e_k
+        nout = Wm.shape[1]
+        out = np.empty((H, nout), dtype=object)
+        fr = {}
+        for k in range(W):
+            for j in range(nout):
+                w = float(Wm[k, j])
+                if w != 0.0:
+                    f = Fraction(w).limit_denominator(64)
+                    if abs(float(f) - w) > 1e-12:
+                        raise S.Unsupported('zoom weight %r is not a multiple of 1/64' % w)
+                    fr[(k, j)] = f
+        for r in range(H):
+            for j in range(nout):
+                acc = None
+                for k in range(W):
+                    f = fr.get((k, j))
+                    if f is None:
+                        continue
+                    term = a._a[r, k] if f == 1 else a._a[r, k] * np.float32(float(f))
+                    acc = term if acc is None else acc + term
+                out[r, j] = acc if acc is not None else np.float32(0.0)
+        return S.SymArray(out, a.kind)
+    return zoom
+
+
 def install_stubs(S):
     import pandora.criteria as CR, pandora.matching_cost.matching_cost as MC
     bd = dilation_model(S)
     CR.binary_dilation = bd; MC.binary_dilation = bd
+    import pandora.img_tools as IT
+    IT.zoom = zoom_linear_model(S)
 
 
 def make_image(xr, S, EX, name, H, W, col0=0, mask=None, vmax=255, bands=None, shapes=None, codes=(0, 1)):
